@@ -213,10 +213,10 @@ Proof. exact (refuted_of_witnesses _ _ _ (http_witness_refutes bundled_db http_e
 
 (* HTTP: every signature line is in exactly one list *)
 Lemma bundled_http_partition :
-  list_N_eqb (sort_N (dead_http_lines ++ undecided_http_lines)) (sort_N (sig_lines SecHQ ++ sig_lines SecHS)) = true
+  list_N_eqb (sort_N (live_http_lines ++ dead_http_lines ++ undecided_http_lines)) (sort_N (sig_lines SecHQ ++ sig_lines SecHS)) = true
   /\ length (sig_lines SecHQ ++ sig_lines SecHS) = 99%nat
-  /\ (length dead_http_exact_lines, length dead_http_expsw_lines, length dead_http_value_lines, length undecided_http_lines)
-     = (13, 9, 20, 57)%nat.
+  /\ (length live_http_lines, length dead_http_exact_lines, length dead_http_expsw_lines, length dead_http_value_lines,
+      length undecided_http_lines) = (47, 13, 9, 20, 10)%nat.
 Proof. vm_compute. repeat split; reflexivity. Qed.
 
 (* KV6 on a live signature *)
